@@ -1,12 +1,11 @@
-(* EvalFortran.v — the C04 clauses on the SECOND engine: FortranEngine.solve_t (fsic/fortran.py:310-470) over the
-   compiled subroutine solve_t of FORTRAN_TEMPLATE (fortran.py:650-745), as modelled in Fortran/FSolve.v (w_solve_t /
-   t_solve_t, by the builder of C07).  Only FSolve.v's DEFINITIONS are imported; the statements here are C04's:
+(* EvalFortran.v — the C04 clauses on the SECOND engine: FortranEngine.solve_t / _evaluate (fsic/fortran.py) over the compiled
+   template, as modelled in Fortran/FSolve.v (w_solve_t / w_evaluate / t_solve_t, by the builder of C07).  Only FSolve.v's
+   DEFINITIONS are imported; the statements here are C04's:
 
-   - an explicit request for a period without room for the lags / leads is REJECTED (error codes 13 / 14, surfacing as
-     FortranEngineError, or as SolutionError when the pre-existing-non-finite test of the wrapper fires first) — the
-     {equations} block is never executed, status / iterations / events are untouched;
-   - without an offset nothing at all changes; WITH an in-span offset the wrapper has already copied period t+offset
-     into period t (finding: C04|fortran|infeasible-after-offset|changed) — refuted + exact residue. *)
+   - an explicit request for a period without room for the lags / leads is REJECTED with IndexError before anything is copied
+     or changed (fix 1354783: the wrapper now has the guard of BaseModel.solve_t in front of the offset block; before, the
+     offset copy was left behind — former finding C04|fortran|infeasible-after-offset|changed);
+   - FortranEngine._evaluate answers every t outside the span or without room for the lags / leads with IndexError. *)
 From Coq Require Import ZArith List Bool Lia ZifyBool PrimFloat.
 Import ListNotations.
 Require Import PyBase Solver SolverF FSem FSolve Eval EvalFacts.
@@ -62,111 +61,36 @@ Section EvalFortran.
     destruct (Z.of_nat n - Z.of_nat (leads d) <? Z.of_nat p + 1) eqn:E4; [lia|]. reflexivity.
   Qed.
 
-  (* the compiled subroutine at an infeasible period: returns at the index tests — values as passed in, not converged,
-     code 13 or 14; the {equations} block (evf), the offset copy and the loop are never reached *)
-  Lemma t_solve_t_infeasible (fm : fmod) d n t p v mi ma tl off cv ec :
-    fm_lags fm = Z.of_nat (lags d) -> fm_leads fm = Z.of_nat (leads d) ->
-    py_pos n t = Some p -> feasible d n p = false -> ncols_of num v = Z.of_nat n ->
-    exists c, (c = c_lags \/ c = c_leads) /\ t_solve_t fm v (t + 1) mi ma tl off cv ec = mkFout v false undef_iter c.
-  Proof.
-    intros Hl Hd Hp Hf Hn. unfold FSolve.t_solve_t. rewrite Hn, (f_index_pos n t p Hp).
-    assert (Hlt : (p < n)%nat) by (apply py_pos_inv in Hp; lia).
-    destruct fortran_codes_nonzero as (N1 & N2 & _).
-    destruct (f_guard_infeasible fm d n p Hl Hd Hlt Hf) as [G|G]; rewrite G.
-    - exists c_lags. split; [left; reflexivity|]. replace (c_lags =? 0) with false by lia. reflexivity.
-    - exists c_leads. split; [right; reflexivity|]. replace (c_leads =? 0) with false by lia. reflexivity.
-  Qed.
-
-  Lemma ncols_shape (v v' : vals num) : shape v' = shape v -> ncols_of num v' = ncols_of num v.
-  Proof.
-    unfold ncols_of, shape. destruct v as [|a v], v' as [|b v']; cbn [map hd]; intros H; try reflexivity; try discriminate.
-    inversion H. congruence.
-  Qed.
-
-  Lemma setvals_self (s : mstate num) : setvals num s (vals_of s) = s.
-  Proof. destruct s; reflexivity. Qed.
-
-  (* what the wrapper answers once the compiled code has returned 13 / 14: none of the codes it tests *)
-  Ltac after_guard Hc :=
-    cbv zeta; cbn [fo_code fo_vals fo_conv fo_iter];
-    let A1 := fresh in let A2 := fresh in let A3 := fresh in let A4 := fresh in let A5 := fresh in let A6 := fresh in
-    destruct fortran_codes_nonzero as (_ & _ & A1 & A2 & A3 & A4 & A5 & A6 & _);
-    destruct Hc as [-> | ->];
-    [ replace (c_lags =? w_t_ok) with false by lia; replace (c_lags =? w_t_raise) with false by lia;
-      replace (c_lags =? w_t_skip) with false by lia
-    | replace (c_leads =? w_t_ok) with false by lia; replace (c_leads =? w_t_raise) with false by lia;
-      replace (c_leads =? w_t_skip) with false by lia ];
-    cbn [andb].
-
-  (* FORTRAN ENGINE, INFEASIBLE PERIOD, THE WHOLE ANSWER.  For every equations block, every option set with a valid
-     `errors`, both spellings of t: the call raises — IndexError for an out-of-span offset, SolutionError when the
-     wrapper's pre-existing-non-finite test fires, FortranEngineError (uncaught code 13 / 14) otherwise —, status,
-     iterations and events are untouched, and the values are untouched too UNLESS a non-zero in-span offset was given:
-     then the wrapper's copy of period p + offset into period p is left behind. *)
+  (* FORTRAN ENGINE, INFEASIBLE PERIOD (fix 1354783), at full strength: for every equations block, every compiled module,
+     every option set with a valid `errors`, both spellings of t, WITH OR WITHOUT an offset: IndexError, and the whole
+     state — values, status, iterations, events — is exactly what it was.  The guard is the instance-level one of
+     BaseModel.solve_t and sits before the offset block, so nothing has been copied. *)
   Theorem fortran_infeasible_rejected (fm : fmod) d o t s p ec :
     min_iter o <= max_iter o -> w_ec (errors o) = Some ec ->
-    fm_lags fm = Z.of_nat (lags d) -> fm_leads fm = Z.of_nat (leads d) ->
     py_pos (length (status s)) t = Some p -> feasible d (length (status s)) p = false ->
-    ncols_of num (vals_of s) = Z.of_nat (length (status s)) ->
-    let n := Z.of_nat (length (status s)) in
-    let q := Z.of_nat p + offset o in
-    let verdict (v : vals num) : exn :=
-      if is_raise (errors o) && negb (all_finite (get_check d v p)) then SolutionError None else FortranEngineError in
-    w_solve_t fm d o t s =
-      if offset o =? 0 then (s, Raise (verdict (vals_of s)))
-      else if (q <? 0) || (n <=? q) then (s, Raise IndexError)
-      else let v0 := copy_endo d (vals_of s) p (Z.to_nat q) in (setvals num s v0, Raise (verdict v0)).
+    w_solve_t fm d o t s = (s, Raise IndexError).
   Proof.
-    intros Hmm Hec Hl Hd Hp Hf Hn. cbv zeta. unfold FSolve.w_solve_t.
-    replace (max_iter o <? min_iter o) with false by lia. rewrite Hec, Hp.
-    destruct (offset o =? 0) eqn:Eo.
-    - destruct (is_raise (errors o) && negb (all_finite (get_check d (vals_of s) p))).
-      + rewrite setvals_self. reflexivity.
-      + destruct (t_solve_t_infeasible fm d _ t p (vals_of s) (min_iter o) (max_iter o) (tol o) (offset o) (cv_of d) ec
-                    Hl Hd Hp Hf Hn) as (c & Hc & ->).
-        after_guard Hc; rewrite setvals_self; reflexivity.
-    - destruct (Z.of_nat p + offset o <? 0) eqn:E1; [reflexivity|].
-      destruct (Z.of_nat (length (status s)) <=? Z.of_nat p + offset o) eqn:E2; [reflexivity|]. cbn [orb].
-      set (v0 := copy_endo d (vals_of s) p (Z.to_nat (Z.of_nat p + offset o))).
-      destruct (is_raise (errors o) && negb (all_finite (get_check d v0 p))); [reflexivity|].
-      assert (Hn0 : ncols_of num v0 = Z.of_nat (length (status s))).
-      { rewrite <- Hn. apply ncols_shape. apply (copy_endo_agree num zero d (vals_of s) p). }
-      destruct (t_solve_t_infeasible fm d _ t p v0 (min_iter o) (max_iter o) (tol o) (offset o) (cv_of d) ec
-                  Hl Hd Hp Hf Hn0) as (c & Hc & ->).
-      after_guard Hc; reflexivity.
+    intros Hmm Hec Hp Hf. unfold FSolve.w_solve_t.
+    replace (max_iter o <? min_iter o) with false by lia. rewrite Hec, Hp, Hf. reflexivity.
   Qed.
 
-  (* the property's clause, under the guard that excludes the finding: no offset => rejected AND nothing changes *)
-  Corollary fortran_infeasible_no_offset_no_change (fm : fmod) d o t s p ec :
-    min_iter o <= max_iter o -> w_ec (errors o) = Some ec ->
-    fm_lags fm = Z.of_nat (lags d) -> fm_leads fm = Z.of_nat (leads d) ->
-    py_pos (length (status s)) t = Some p -> feasible d (length (status s)) p = false ->
-    ncols_of num (vals_of s) = Z.of_nat (length (status s)) -> offset o = 0 ->
-    fst (w_solve_t fm d o t s) = s /\
-    (snd (w_solve_t fm d o t s) = Raise FortranEngineError \/ snd (w_solve_t fm d o t s) = Raise (SolutionError None)).
-  Proof.
-    intros Hmm Hec Hl Hd Hp Hf Hn Ho.
-    rewrite (fortran_infeasible_rejected fm d o t s p ec Hmm Hec Hl Hd Hp Hf Hn), Ho. cbn [Z.eqb fst snd].
-    split; [reflexivity|]. destruct (is_raise (errors o) && negb (all_finite (get_check d (vals_of s) p))); auto.
-  Qed.
+  (* the other up-front rejections of the wrapper change nothing either *)
+  Theorem fortran_rejected_min_gt_max (fm : fmod) d o t s :
+    max_iter o < min_iter o -> w_solve_t fm d o t s = (s, Raise ValueError).
+  Proof. intros H. unfold FSolve.w_solve_t. replace (max_iter o <? min_iter o) with true by lia. reflexivity. Qed.
 
-  (* an infeasible period is never SERVED, offset or not: the outcome is always an exception and no status is stamped *)
-  Corollary fortran_infeasible_never_served (fm : fmod) d o t s p ec :
+  Theorem fortran_rejected_offset_out_of_span (fm : fmod) d o t s p ec :
     min_iter o <= max_iter o -> w_ec (errors o) = Some ec ->
-    fm_lags fm = Z.of_nat (lags d) -> fm_leads fm = Z.of_nat (leads d) ->
-    py_pos (length (status s)) t = Some p -> feasible d (length (status s)) p = false ->
-    ncols_of num (vals_of s) = Z.of_nat (length (status s)) ->
-    (exists e, snd (w_solve_t fm d o t s) = Raise e) /\
-    status (fst (w_solve_t fm d o t s)) = status s /\ iters (fst (w_solve_t fm d o t s)) = iters s /\
-    log (fst (w_solve_t fm d o t s)) = log s /\
-    agree_outside (fun i j => offset o <> 0 /\ In i (endo d) /\ j = p) (vals_of s) (vals_of (fst (w_solve_t fm d o t s))).
+    py_pos (length (status s)) t = Some p -> feasible d (length (status s)) p = true ->
+    offset o <> 0 ->
+    (Z.of_nat p + offset o < 0 \/ Z.of_nat (length (status s)) <= Z.of_nat p + offset o) ->
+    w_solve_t fm d o t s = (s, Raise IndexError).
   Proof.
-    intros Hmm Hec Hl Hd Hp Hf Hn.
-    rewrite (fortran_infeasible_rejected fm d o t s p ec Hmm Hec Hl Hd Hp Hf Hn).
-    destruct (offset o =? 0) eqn:Eo; [|destruct ((Z.of_nat p + offset o <? 0) || (Z.of_nat (length (status s)) <=? Z.of_nat p + offset o))];
-      cbn [fst snd]; (split; [eexists; reflexivity|]); repeat (split; [reflexivity|]); try apply agree_refl.
-    cbn [setvals vals_of]. eapply agree_mono; [|apply (copy_endo_agree num zero d (vals_of s) p)].
-    intros i j [Hi Hj]. split; [lia|split; assumption].
+    intros Hmm Hec Hp Hf Ho Hq. unfold FSolve.w_solve_t.
+    replace (max_iter o <? min_iter o) with false by lia. rewrite Hec, Hp, Hf. cbn [negb].
+    replace (offset o =? 0) with false by lia.
+    destruct (Z.of_nat p + offset o <? 0) eqn:E1; [reflexivity|].
+    replace (Z.of_nat (length (status s)) <=? Z.of_nat p + offset o) with true by lia. reflexivity.
   Qed.
 
   (* ---- FortranEngine._evaluate(t) (fortran.py:472-528) over subroutine evaluate (592-647): the explicit index tests,
@@ -199,7 +123,7 @@ Section EvalFortran.
   Qed.
 End EvalFortran.
 
-(* ---------------- binary64 witness of the finding ---------------- *)
+(* ---------------- binary64 instances ---------------- *)
 (* Y[t] = 0.5 * Y[t-1] + X[t] on a 4-period span, LAGS = 1; the equations block is irrelevant (never reached) *)
 Definition exF_fm : fmod := mkFmod 1 0 [1].
 Definition exF_d : mdesc := mkDesc [0%nat] [0%nat] 1%nat 0%nat.
@@ -209,29 +133,12 @@ Definition exF_s : fstate :=
 Definition exF_o (off : Z) : fopts := mkOpts 0 3 0x1.b7cdfd9d7bdbbp-34%float off false ERaise true.
 Definition exF_solve_t := w_solve_t float PrimFloat.sub PrimFloat.abs PrimFloat.ltb fisfin fzero (fun _ v => v).
 
-Example exF_infeasible_no_offset :
-  exF_solve_t exF_fm exF_d (exF_o 0) 0 exF_s = (exF_s, Raise FortranEngineError) /\
-  exF_solve_t exF_fm exF_d (exF_o 0) (-4) exF_s = (exF_s, Raise FortranEngineError).
-Proof. split; vm_compute; reflexivity. Qed.
-
-Example exF_infeasible_offset :
-  exF_solve_t exF_fm exF_d (exF_o 1) 0 exF_s =
-  (mkState [[2%float; 2%float; 3%float; 4%float]; [1%float; 1%float; 1%float; 1%float]]
-           [Unsolved; Unsolved; Unsolved; Unsolved] [-1; -1; -1; -1] [], Raise FortranEngineError).
-Proof. vm_compute. reflexivity. Qed.
-
-(* "an infeasible period is rejected and nothing changes" is FALSE of FortranEngine.solve_t when an in-span offset is given *)
-Lemma fortran_infeasible_after_offset_refuted :
-  exists (fm : fmod) d o t s p,
-    py_pos (length (status s)) t = Some p /\ feasible d (length (status s)) p = false /\
-    fm_lags fm = Z.of_nat (lags d) /\ fm_leads fm = Z.of_nat (leads d) /\ offset o <> 0 /\
-    snd (exF_solve_t fm d o t s) = Raise FortranEngineError /\
-    nth_error (nth 0 (vals_of s) []) 0 = Some 1%float /\
-    nth_error (nth 0 (vals_of (fst (exF_solve_t fm d o t s))) []) 0 = Some 2%float.
-Proof.
-  exists exF_fm, exF_d, (exF_o 1), 0, exF_s, 0%nat. rewrite exF_infeasible_offset.
-  repeat split; try reflexivity. cbn. lia.
-Qed.
+(* the former finding's input (offset = 1 at the infeasible period 0, both spellings): now rejected with nothing copied *)
+Example exF_infeasible_rejected :
+  exF_solve_t exF_fm exF_d (exF_o 0) 0 exF_s = (exF_s, Raise IndexError) /\
+  exF_solve_t exF_fm exF_d (exF_o 1) 0 exF_s = (exF_s, Raise IndexError) /\
+  exF_solve_t exF_fm exF_d (exF_o 2) (-4) exF_s = (exF_s, Raise IndexError).
+Proof. repeat split; vm_compute; reflexivity. Qed.
 
 (* the hypotheses of fortran_infeasible_rejected are satisfiable *)
 Example exF_hyps :
